@@ -1,6 +1,7 @@
 CONSTANTS
  NPal = 16
  MaxLen = 3
+ DecIdx = {1, 2, 3, 4, 5, 6, 7, 8}
  CoefIdx = {1, 3, 4, 5, 6}
 SPECIFICATION Spec
 INVARIANT TypeOK
